@@ -7,7 +7,7 @@ namespace rs {
 
 // ------------------------------------------------------------------ reference model
 struct ExpOp { int phase, op, plugin; };
-struct ExpFail { Str token, file, testName; size_t line; bool anyLocation; int kind; };   // kind: 0 check, 1 exception, 2 plugin, 3 ptr overflow, 4 leak
+struct ExpFail { Str token, file, testName; size_t line; bool anyLocation; int kind; int diffAt, pair; ExpFail() : line(0), anyLocation(false), kind(0), diffAt(-1), pair(-1) {} };   // kind: 0 check, 1 exception, 2 plugin, 3 ptr overflow, 4 leak
 struct MSlot { bool live; int family; size_t size; Str file; size_t line; int ownerSeq; };
 struct ExpLeak { size_t size; Str file; size_t line; Str type; };
 struct ModelState {
@@ -83,6 +83,7 @@ static void modelTest(const Desc& d, const Vec<int>& testGroups, const Vec<int>&
             case K_FAIL_CPP: case K_FAIL_C: {
                 x.checks++;
                 ExpFail f; f.token = o.s2; f.file = file; f.line = (size_t)o.d; f.testName = formattedName(T); f.anyLocation = false; f.kind = 0;
+                if (o.kind == K_FAIL_CPP && (o.a == 24 || o.a == 25 || o.a == 27)) { f.diffAt = operandPair(o.b).at; f.pair = (int)(o.b % N_OPERAND_PAIRS); }
                 x.fails.push_back(f); term = true; break;
             }
             case K_ADD_FAILURES: {       // recorded, printed, and the phase goes on
@@ -193,6 +194,18 @@ static void parseSummaries(const Str& console, Vec<ParsedSummary>& out) {
         if (sscanf(p, "%ld tests, %ld ran, %ld checks, %ld ignored, %ld filtered out, %ld ms)%n", &s.tests, &s.run, &s.checks, &s.ignored, &s.filtered, &ms, &n) >= 6 && n > 0) { s.ok = true; out.push_back(s); }
         pos = a + 8;
     }
+}
+
+// how a failure message shows a string operand: printable ASCII as it is, the seven control characters with a letter escape by that escape, every other byte as \xHH
+static Str renderOperand(const char* p) {
+    Str r;
+    for (; *p; p++) {
+        unsigned char c = (unsigned char)*p;
+        if (c >= 7 && c <= 13) { r += '\\'; r += "abtnvfr"[c - 7]; }
+        else if (c < 0x20 || c >= 0x7f) r += sfmt("\\x%02X", c);
+        else r += (char)c;
+    }
+    return r;
 }
 
 // ------------------------------------------------------------------ TeamCity decoder (written from the service message grammar)
@@ -466,6 +479,11 @@ void checkOracles(const Desc& d, const Obs& o, RunResult& r) {
                 const char* prop = ef.kind == 4 ? "C07" : "C01";
                 // only text the test itself supplied is demanded back; how the framework words its own failures is not the property's business
                 if (ef.token.compare(0, 2, "tk") == 0 && fr.msg.find(ef.token) == Str::npos) r.fail(prop, "failure_text", sigOf("kind", sfmt("%d", ef.kind)), sfmt("test %d failure %zu: message does not carry '%s': %s", st.test, i, ef.token.c_str(), fr.msg.c_str()));
+                if (ef.pair >= 0) {      // both operands are shown, bytes that are not printable as escapes that denote them
+                    Str we = Str("<") + renderOperand(operandPair(ef.pair).expected) + ">", wa = Str("<") + renderOperand(operandPair(ef.pair).actual) + ">";
+                    if (fr.msg.find(we) == Str::npos || fr.msg.find(wa) == Str::npos) r.fail("C14", "operand_rendering", sfmt("test %d failure %zu: operands %s and %s are not both shown: %s", st.test, i, we.c_str(), wa.c_str(), fr.msg.c_str()));
+                }
+                if (ef.diffAt >= 0 && fr.msg.find(sfmt("difference starts at position %d at:", ef.diffAt)) == Str::npos) r.fail("C14", "difference_position", sfmt("test %d failure %zu: the operands differ first at index %d: %s", st.test, i, ef.diffAt, fr.msg.c_str()));
                 if (!ef.anyLocation && (fr.file != ef.file || fr.line != ef.line)) r.fail(prop, "failure_location", sigOf("kind", sfmt("%d", ef.kind)), sfmt("test %d failure %zu at %s:%zu, expected %s:%zu", st.test, i, fr.file.c_str(), fr.line, ef.file.c_str(), ef.line));
                 if (fr.testName != ef.testName) r.fail(prop, "failure_owner", sfmt("failure attributed to %s, expected %s", fr.testName.c_str(), ef.testName.c_str()));
                 if (ef.kind == 4) {
